@@ -115,6 +115,9 @@ impl<H: Hasher> BatchMerkleProof<H> {
         if indexes.is_empty() {
             return Err(MerkleTreeError::TooFewLeafIndexes);
         }
+        if indexes.len() != leaves.len() {
+            return Err(MerkleTreeError::InvalidProof);
+        }
 
         let mut buf = [H::Digest::default(); 2];
         let mut v = BTreeMap::new();
